@@ -136,11 +136,15 @@ def run_case(case):
                    *h.spec["objects"][ups[0]]["params"]["hourly_usage_journey_starts"][2:]]}
     if h.apply(e) is None:
         classes.add("non_integer_hourly_input")
+    f3_nets = set()
     if case["idx"] % 2 == 0:
         C["after_history"] = 1
         for _ in range(4):
+            sb_ = h.spec
             if h.apply(h.propose()) is not None:
                 break
+            from .c01 import f3_networks
+            f3_nets |= f3_networks(sb_, h.spec)
     classes |= set(gen.topo_classes(h.spec))
     sysm = h.system
     orig_objs = observe.all_objects(sysm)
@@ -171,8 +175,11 @@ def run_case(case):
             # rounding an hourly input by 5e-4 moves results by up to 5e-4/value: compare with a tolerance scaled on the inputs' rounding
             d = [k for k in d if not observe.close(snap0.get(k), snapl.get(k), rtol=2e-3)] if "non_integer_hourly_input" in classes else d
             if d:
+                # known finding F3: the ORIGINAL is stale (network of a pattern that was given its first jobs), the loaded system is right
+                mech = ("F3-network-of-jobless-pattern-not-recomputed" if f3_nets and set(d) <= ({(n_, "energy_footprint") for n_ in f3_nets}
+                                                                                                 | {(h.spec["system"], "total_footprint")}) else None)
                 V.append({"kind": "recomputed results of the loaded system differ from the original's", "n_slots": len(d),
-                          "slots": observe.explain_diff(snapl, snap0, d), **ctx}); break
+                          "slots": observe.explain_diff(snapl, snap0, d), "mechanism": mech, **ctx}); break
         # re-export
         C["re_exports_compared"] += 1
         re_exported = json.loads(json.dumps(E.system_to_json(lsys, save_calculated_attributes=mode)))
